@@ -195,3 +195,57 @@ Check C01_trailing_bytes_rejected :
     lzma_decompress fuel {| o_unpacked := ReadFromHeader; o_memlimit := None; o_allow_incomplete := false |}
       {| i_src := src_of (bytes ++ trail) frag None; i_snk := k |} = (Failed ELzma, w').
 Print Assumptions C01_trailing_bytes_rejected.
+
+From LZ Require Import Format.RefEnc Proofs.HeaderRules Proofs.LzmaExact Proofs.LzmaExactOpts.
+
+(* the exact-decoding theorem for EVERY option whose size in effect matches the stream (ReadFromHeader, ReadHeaderButUseProvided with arbitrary header field bytes, UseProvided with the 5-byte header), any memory limit >= the dictionary   [proved as lzma_decode_exact_opts in Proofs/LzmaExactOpts.v] *)
+Theorem C01_lzma_decode_exact_all_options :
+  forall (fp : fprops) (dict_field : N) (field : list N) (prog : list sym) (payload out : list N) 
+    (delta : N) (trail : list N) (ief : ienc) (o : options) (frag : N -> N) (k : snk) 
+    (fuel : positive),
+  f_lc fp <= 8 ->
+  f_lp fp <= 4 ->
+  f_pb fp <= 4 ->
+  dict_field < 2 ^ 32 ->
+  enc_payload_gen false fp (Some (N.max dict_field 4096)) prog delta = Some (payload, out) ->
+  final_ienc fp (Some (N.max dict_field 4096)) prog = Some ief ->
+  nlen field = size_field_len (o_unpacked o) ->
+  memlimit_ok (o_memlimit o) (N.max dict_field 4096) ->
+  stream_mode (size_in_effect (o_unpacked o) (le_num field)) prog out delta trail ief ->
+  k_wfail k = None ->
+  k_ffail k = false ->
+  (length prog + 1 <= Pos.to_nat fuel)%nat ->
+  exists w' : io,
+    lzma_decompress fuel o
+      {| i_src := src_of ((hdr_bytes fp dict_field field ++ payload) ++ trail) frag None; i_snk := k |} =
+    (Done tt, w') /\
+    snk_bytes (i_snk w') = snk_bytes k ++ out /\
+    k_flushes (i_snk w') = k_flushes k + 1 /\
+    s_pos (i_src w') = nlen (hdr_bytes fp dict_field field ++ payload) /\
+    s_pos (i_src w') = header_len (o_unpacked o) + nlen payload /\ s_rest (i_src w') = trail.
+Proof. exact (@lzma_decode_exact_opts). Qed.
+Check C01_lzma_decode_exact_all_options :
+  forall (fp : fprops) (dict_field : N) (field : list N) (prog : list sym) (payload out : list N) 
+    (delta : N) (trail : list N) (ief : ienc) (o : options) (frag : N -> N) (k : snk) 
+    (fuel : positive),
+  f_lc fp <= 8 ->
+  f_lp fp <= 4 ->
+  f_pb fp <= 4 ->
+  dict_field < 2 ^ 32 ->
+  enc_payload_gen false fp (Some (N.max dict_field 4096)) prog delta = Some (payload, out) ->
+  final_ienc fp (Some (N.max dict_field 4096)) prog = Some ief ->
+  nlen field = size_field_len (o_unpacked o) ->
+  memlimit_ok (o_memlimit o) (N.max dict_field 4096) ->
+  stream_mode (size_in_effect (o_unpacked o) (le_num field)) prog out delta trail ief ->
+  k_wfail k = None ->
+  k_ffail k = false ->
+  (length prog + 1 <= Pos.to_nat fuel)%nat ->
+  exists w' : io,
+    lzma_decompress fuel o
+      {| i_src := src_of ((hdr_bytes fp dict_field field ++ payload) ++ trail) frag None; i_snk := k |} =
+    (Done tt, w') /\
+    snk_bytes (i_snk w') = snk_bytes k ++ out /\
+    k_flushes (i_snk w') = k_flushes k + 1 /\
+    s_pos (i_src w') = nlen (hdr_bytes fp dict_field field ++ payload) /\
+    s_pos (i_src w') = header_len (o_unpacked o) + nlen payload /\ s_rest (i_src w') = trail.
+Print Assumptions C01_lzma_decode_exact_all_options.
